@@ -1089,6 +1089,49 @@ pub fn check(rec: &RunRecord) -> Vec<Violation> {
         }
     }
 
+    // ---------------- C01 / C02: a well-formed command that a reliable remote sent to a value or map lane is applied
+    // (the lane's own handlers report the value / the update), whatever characters its key contains.
+    if let (Some(qs), true, false, true) = (q, clean_end, startup_deadlock(rec), sc.fake.is_none() && sc.fake_persist.is_none()) {
+        let agent_up = rec.agent_ends.first().map(|e| e.as_ref().map(|e| e.step > qs).unwrap_or(true)).unwrap_or(false);
+        let mut unsure: BTreeSet<u32> = rec.stuck_writers.iter().copied().collect();
+        for s in rec.hist.sent.iter().filter(|s| s.epoch == 0) {
+            if !s.ok || s.end > qs || matches!(s.op, Op::TornCmd { .. } | Op::CloseWrite) {
+                unsure.insert(s.peer);
+            }
+        }
+        if agent_up {
+            for lane in ["val", "tval"] {
+                let held: BTreeSet<i32> = value_truth(rec, 0, lane).iter().map(|(_, v)| *v).collect();
+                for s in rec.hist.sent.iter().filter(|s| s.epoch == 0 && !unsure.contains(&s.peer)) {
+                    if let Op::Cmd { lane: l, body } = &s.op {
+                        if l == lane {
+                            if let Ok(v) = body.trim().parse::<i32>() {
+                                if !held.contains(&v) {
+                                    out.push(Violation::new("C01", "C01.command_lost", "value", format!("peer {} sent {v} to lane {lane} (written completely at step {}) but the lane never held it", s.peer, s.end)));
+                                }
+                            }
+                        }
+                    }
+                }
+            }
+            for lane in ["map", "bmap", "tmap", "smap"] {
+                let (_, ops) = map_truth(rec, 0, lane);
+                let updates: BTreeSet<(String, i32)> = ops.iter().filter_map(|(_, e)| if let MapEv::Update(k, v) = e { Some((k.clone(), *v)) } else { None }).collect();
+                for s in rec.hist.sent.iter().filter(|s| s.epoch == 0 && !unsure.contains(&s.peer)) {
+                    if let Op::Cmd { lane: l, body } = &s.op {
+                        if l == lane {
+                            if let Some(MapEv::Update(k, v)) = parse_map_event(lane, body.as_bytes()) {
+                                if !updates.contains(&(k.clone(), v)) {
+                                    out.push(Violation::new("C02", "C02.command_lost", "map", format!("peer {} sent update {k:?} -> {v} to lane {lane} (written completely at step {}) but the lane never made that update", s.peer, s.end)));
+                                }
+                            }
+                        }
+                    }
+                }
+            }
+        }
+    }
+
     // ---------------- C14 agent-sent commands.
     if let (Some(qs), true) = (q, clean_end) {
         let mut sent: BTreeMap<i32, Vec<(i32, bool)>> = BTreeMap::new();
@@ -1350,7 +1393,13 @@ pub fn check_persistence(rec: &RunRecord) -> Vec<Violation> {
     }
     let i32map = |m: &BTreeMap<i32, i32>| -> BTreeMap<String, i32> { m.iter().map(|(k, v)| (k.to_string(), *v)).collect() };
     for (name, got) in [("map", i32map(&map)), ("bmap", i32map(&bmap)), ("smap", smap.clone()), ("mstore", i32map(&mstore))] {
-        let want = if lanes_transient && name != "mstore" { BTreeMap::new() } else { img_map(name) };
+        // A transient lane restarts in the state it is constructed with.
+        let constructed: BTreeMap<String, i32> = match (rec.scenario.knobs.initial_contents, name) {
+            (true, "map") => [("900".to_string(), 800_001), ("901".to_string(), 800_002)].into_iter().collect(),
+            (true, "bmap") => [("900".to_string(), 800_003)].into_iter().collect(),
+            _ => BTreeMap::new(),
+        };
+        let want = if lanes_transient && name != "mstore" { constructed } else { img_map(name) };
         if got != want {
             out.push(Violation::new("C05", "C05.restore_map", name, format!("{name} came back as {:?} but the operations handed to the store imply {:?}", got, want)));
         }
